@@ -434,3 +434,57 @@ def r11i(ctx: Ctx) -> list[Ob]:
         else:
             out.append(unres("R11i", c.qualname, inst, "no return reachable for a floating-point tensor", m.loc))
     return out
+
+
+# ------------------------------------------------------------------------------------------ R11j
+GRAD_OFF = {"no_grad", "set_grad_enabled", "inference_mode", "enable_grad"}
+
+
+def r11j(ctx: Ctx) -> list[Ob]:
+    """R11j -- evaluation never switches gradient tracking off.
+
+    The output of a circuit is differentiated through every ``forward`` on the way: layers, parameter
+    nodes, parameter graphs (``TorchParameter.forward`` / ``evaluate``), the semiring reductions.  A
+    ``torch.no_grad()`` / ``set_grad_enabled(..)`` / ``inference_mode()`` block or decorator in one
+    of them -- however the condition is computed ('this graph only holds constants') -- detaches the
+    result for whatever the condition misjudges (a graph of pointers to another circuit's learnable
+    tensors next to a constant), and ``.detach()`` of anything but the subtracted-and-added-back shift
+    of a stable reduce removes a term from the gradient.  Initialisation (``reset_parameters``) and
+    sampling are not differentiated and are exempt."""
+    import ast as _ast
+
+    from .r10 import EVAL_METHODS, _module_classes
+
+    out: list[Ob] = []
+    eval_names = [m for m in EVAL_METHODS if m not in ("sample",)] + ["apply_reduce", "einsum", "map_from", "sum", "prod"]
+    classes = list(_module_classes(ctx)) + [c for c in ctx.repo.classes.values() if c.module.name == "cirkit.backend.torch.semiring"]
+    seen = set()
+    for c in classes:
+        if c.qualname in seen:
+            continue
+        seen.add(c.qualname)
+        for mname in eval_names:
+            m = c.methods.get(mname)
+            if m is None or m.is_abstract:
+                continue
+            bad = None
+            for d in m.node.decorator_list:
+                nm = (dotted(d.func if isinstance(d, _ast.Call) else d) or "").split(".")[-1]
+                if nm in GRAD_OFF and nm != "enable_grad":
+                    bad = (d, f"decorated with {nm}")
+            for n in walk_no_nested(m.node):
+                if isinstance(n, _ast.Call):
+                    nm = (dotted(n.func) or "").split(".")[-1]
+                    if nm in GRAD_OFF and nm != "enable_grad":
+                        bad = bad or (n, f"`{unparse(n)[:60]}`")
+                    if isinstance(n.func, _ast.Attribute) and n.func.attr == "detach":
+                        recv = unparse(n.func.value)
+                        if "max" not in recv and "shift" not in recv:
+                            bad = bad or (n, f"`{unparse(n)[:60]}` detaches a value that is not the shift of a stable reduce")
+            inst = f"grad-tracking:{mname}"
+            if bad is not None:
+                n, what = bad
+                out.append(viol("R11j", c.qualname, inst, f"{c.name}.{mname} {what}: whatever is computed there carries no gradient -- the derivative of the circuit's output loses that term without any error, and forward values are unchanged", f"{m.module.relpath}:{getattr(n, 'lineno', m.node.lineno)}"))
+            else:
+                out.append(ok("R11j", c.qualname, inst, "gradient tracking is left alone", m.loc, nontrivial=False))
+    return out
